@@ -33,6 +33,8 @@ ASSUMPTIONS = [
     "names and dropping private names passed by keyword (guide/func.md, 'Private parameters')",
     "calls Python would not bind (and calls naming one parameter through two spellings) are executed but not judged",
     "coroutines and async generators are stepped by hand (send(None)), no event loop, no real time",
+    "a bare (unannotated, default-less) first parameter of a function declared in a class body is taken for `self` when the "
+    "parser cannot see a staticmethod object (@staticmethod placed above @utype.parse): not judged",
 ]
 
 # ------------------------------------------------------------------------------------------------ signatures
@@ -46,8 +48,10 @@ VARIANTS = {
     "oalias": ("Param(alias='{n}_out')", None, "_out", False),
     "oadef": ("Param(7, alias='{n}_out')", "7", "_out", False),
     "priv": ("5", "5", None, True),
+    # no annotation, no default: the value is passed through as it is
+    "bare": (None, None, None, False),
 }
-KIND_VARIANTS = {"po": ["req", "def", "priv"], "pk": ["req", "def", "alias", "adef", "oalias", "oadef", "priv"],
+KIND_VARIANTS = {"po": ["req", "def", "priv"], "pk": ["req", "def", "alias", "adef", "oalias", "oadef", "priv", "bare"],
                  "ko": ["req", "def", "alias", "adef", "oalias", "priv"]}
 
 
@@ -75,7 +79,7 @@ class Sig:
                 else:
                     parts.append("*")
             d = VARIANTS[v][1 if ref else 0]
-            ann = "" if ref else ": int"
+            ann = "" if (ref or v == "bare") else ": int"
             parts.append(f"{n}{ann}" + (f" = {d.format(n=n)}" if d is not None else ""))
             last_kind = k
         if last_kind == "po":
@@ -132,7 +136,7 @@ def signatures(tier):
     return out
 
 
-CONTEXTS = ["function", "method", "classmethod", "staticmethod", "classdeco"]
+CONTEXTS = ["function", "method", "classmethod", "staticmethod", "classdeco", "parse-above-static"]
 # for signatures with **kwargs: int -- the declared option addition=True does not displace the annotation of **kwargs
 ADDITION_CONTEXTS = ["function-addition", "classdeco-addition"]
 # error collection does not change the contract: a failing parameter keeps the body from running
@@ -157,15 +161,16 @@ def build(sig: Sig, context):
                f"def REF({sig.text(ref=True)}):\n    return {sig.body()}\n")
         exec(src, env)
         return env["W"], env["REF"], src, env
-    first = {"method": "self", "classmethod": "cls", "staticmethod": None, "classdeco": "self"}[context]
+    first = {"method": "self", "classmethod": "cls", "staticmethod": None, "classdeco": "self", "parse-above-static": None}[context]
     deco = {"method": "    @utype.parse\n", "classmethod": "    @classmethod\n    @utype.parse\n",
-            "staticmethod": "    @staticmethod\n    @utype.parse\n", "classdeco": ""}[context]
+            "staticmethod": "    @staticmethod\n    @utype.parse\n", "classdeco": "",
+            "parse-above-static": "    @utype.parse\n    @staticmethod\n"}[context]
     cdeco = f"@utype.parse{popt}\n" if context == "classdeco" else ""
     src = (f"{cdeco}class K:\n{deco}    def W({sig.text(first=first)}):\n        {body}\n"
            f"def REF({sig.text(ref=True)}):\n    return {sig.body()}\n")
     exec(src, env)
     k = env["K"]
-    target = k.W if context in ("classmethod", "staticmethod") else k().W
+    target = k.W if context in ("classmethod", "staticmethod", "parse-above-static") else k().W
     return target, env["REF"], src, env
 
 
@@ -242,9 +247,10 @@ def expected(sig: Sig, ref, args, kwargs):
         except (TypeError, ValueError):
             bad = True
             return None
+    bare = {n for (k, v), n in zip(sig.params, sig.names) if v == "bare"}
     for n in sig.names:
         v = ba.arguments[n]
-        if n in given and n not in private:
+        if n in given and n not in private and n not in bare:
             v = conv(v)
         out[n] = v
     if sig.var_pos:
@@ -378,6 +384,7 @@ def shards(tier):
     sh += [("gen", k, b, a, "function") for k in GEN_KINDS for b in GEN_BODIES for a in GEN_ANNS]
     sh += [("gen", k, b, "full", c) for k in GEN_KINDS for b in ("seq", "zeroret") for c in GEN_CTX[1:]]
     sh += [("ret", k) for k in ("sync", "async", "async-eager")]
+    sh += [("gencalls", k) for k in GEN_KINDS]
     return sh
 
 
@@ -389,6 +396,9 @@ def run_shard(shard, tier):
     if shard[0] == "ret":
         _ret_shard(acc, shard[1], tier)
         return acc
+    if shard[0] == "gencalls":
+        _gencalls_shard(acc, shard[1], tier)
+        return acc
     _, lo, hi = shard
     sigs = signatures(tier)[lo:hi]
     for sig in sigs:
@@ -399,6 +409,11 @@ def run_shard(shard, tier):
         if n <= 2:
             ctxs = ctxs + COLLECT_CONTEXTS
         for ctx in ctxs:
+            if ctx == "staticmethod" and sig.params and sig.params[0][1] == "bare":
+                # @staticmethod above @utype.parse: the parser sees a plain function in a class body whose first
+                # parameter is bare -- indistinguishable from an instance method, taken for `self` (documented guess)
+                acc.extra["not_judged:bare first parameter under @staticmethod above @utype.parse"] += 1
+                continue
             try:
                 W, REF, src, env = build(sig, ctx)
             except Exception as e:
@@ -497,7 +512,8 @@ def _coarse(sig, args, kwargs):
 
 
 def _script(src, ctx, call, exp):
-    target = {"function": "W", "method": "K().W", "classdeco": "K().W", "classmethod": "K.W", "staticmethod": "K.W"}[ctx.replace("-addition", "").replace("-collect", "")]
+    target = {"function": "W", "method": "K().W", "classdeco": "K().W", "classmethod": "K.W", "staticmethod": "K.W",
+              "parse-above-static": "K.W"}[ctx.replace("-addition", "").replace("-collect", "")]
     return "\n".join([
         "import sys", "sys.path.insert(0, '/verif')", "from utmc.ns import *", "from utmc.canon import canon",
         "ENTERED = []", src, f"expected = {exp!r}", "try:", f"    got = ('value', {call.replace('W(', target + '(', 1)})",
@@ -571,6 +587,74 @@ def _gen_script(kind, body, script, ann="full", ctx="function"):
         f"ref = c08.drive(env['REF'](), {list(script)!r}, is_async, convert={ann!r})",
         "print('observed ', got); print('reference', ref); print('body log', env['LOG'], 'reference log', env['RLOG'])",
         "sys.exit(0 if (got == ref and env['LOG'] == env['RLOG']) else 1)"]) + "\n"
+
+
+GENCALL_ARGS = ["1", "'2'", "'x'", "-1"]
+
+
+def gencalls_source(kind):
+    is_async = kind.startswith("async")
+    deco = "@utype.parse(eager=True)" if kind.endswith("eager") else "@utype.parse"
+    if is_async:
+        return f"{deco}\nasync def W(a: int) -> AsyncGenerator[PositiveInt, None]:\n    yield a\n    yield a + 1\n"
+    return f"{deco}\ndef W(a: int) -> Generator[PositiveInt, None, int]:\n    yield a\n    yield a + 1\n    return a\n"
+
+
+def _consume(env, kind, ax):
+    """one complete use of the generator function: call it and drain it"""
+    is_async = kind.startswith("async")
+    try:
+        g = env["W"](eval(ax))
+        if kind == "async" and inspect.iscoroutine(g):
+            g = run_coro(g)
+        out = []
+        while True:
+            try:
+                out.append(run_coro(g.__anext__()) if is_async else next(g))
+            except (StopIteration, StopAsyncIteration) as e:
+                return ("done", out, getattr(e, "value", None))
+    except uexc.ParseError:
+        return ("ParseError",)
+    except Exception as e:
+        return ("other", type(e).__name__, str(e)[:60])
+
+
+def _gencalls_shard(acc, kind, tier):
+    """every sequence of calls (valid, convertible, invalid argument, invalid yield) on ONE decorated generator function:
+    each call behaves as on a freshly decorated function"""
+    src = gencalls_source(kind)
+    fresh = {}
+    for ax in GENCALL_ARGS:
+        env = dict(_NS)
+        env["__name__"] = "utmc.ns"
+        exec(src, env)
+        fresh[ax] = _consume(env, kind, ax)
+    maxlen = 4 if tier == "thorough" else 3
+    for n in range(2, maxlen + 1):
+        for seq in itertools.product(GENCALL_ARGS, repeat=n):
+            env = dict(_NS)
+            env["__name__"] = "utmc.ns"
+            exec(src, env)
+            acc.states += 1
+            for i, ax in enumerate(seq):
+                got = _consume(env, kind, ax)
+                acc.transitions += 1
+                if canon(got) != canon(fresh[ax]):
+                    fp = f"C08|gencalls|{kind}|after-{'-'.join('fail' if fresh[a][0] != 'done' else 'ok' for a in seq[:i])}"
+                    acc.violation(fp, f"{kind} generator function W(a: int): call #{i + 1} of the sequence W({'), W('.join(seq)}) gives "
+                                      f"{short(got, 80)}, on a freshly decorated function W({ax}) gives {short(fresh[ax], 80)}",
+                                  "\n".join(["import sys", "sys.path.insert(0, '/verif')", "from utmc.ns import *", "from utmc.props import c08",
+                                             "from utmc.canon import canon", f"src = c08.gencalls_source({kind!r}); print(src)",
+                                             "def mk():", "    env = {}; exec('from utmc.ns import *', env); exec(src, env); return env",
+                                             f"env = mk(); seq = {list(seq)!r}; bad = False", "for ax in seq:",
+                                             f"    got = c08._consume(env, {kind!r}, ax); want = c08._consume(mk(), {kind!r}, ax)",
+                                             "    print(ax, got, want); bad = bad or canon(got) != canon(want)",
+                                             "sys.exit(1 if bad else 0)"]) + "\n")
+                    break
+            acc.evaluations += 1
+            acc.nontrivial_add((kind, seq))
+            acc.outcomes["sequence"] += 1
+    acc.sample(dict(kind=kind, fresh_outcomes={a: short(v, 60) for a, v in fresh.items()}))
 
 
 RET_VALUES = ["1", "'2'", "'x'", "None", "3.0", "[4]", "b'5'"]
